@@ -320,13 +320,52 @@ func c16RunWire(b core.Batch, r *core.Recorder) {
 		"HTTP/1.1 301 Moved\r\nLocation: \r\nContent-Length: 0\r\n\r\n",
 		"HTTP/1.1 200 OK\r\nContent-Encoding: gzip\r\nContent-Length: 4\r\n\r\nnotz",
 	}
+	// behaviours that depend on the request (index >= len(respHeads)): what the proxy's own second request
+	// (retry without Range, revalidation) receives differs from what the first received
+	ok200 := "HTTP/1.1 200 OK\r\nContent-Length: 5\r\nCache-Control: max-age=60\r\nETag: \"e\"\r\n\r\nhello"
+	dynamic := []func(q *http.Request) string{
+		func(q *http.Request) string { // refuses ranges, cacheable answer to the retry
+			if q.Header.Get("Range") != "" {
+				return "HTTP/1.1 416 Range Not Satisfiable\r\nContent-Range: bytes */5\r\nContent-Length: 0\r\n\r\n"
+			}
+			return ok200
+		},
+		func(q *http.Request) string { // refuses ranges, uncacheable answer to the retry
+			if q.Header.Get("Range") != "" {
+				return "HTTP/1.1 416 Range Not Satisfiable\r\nContent-Length: 0\r\n\r\n"
+			}
+			return "HTTP/1.1 200 OK\r\nContent-Length: 5\r\nCache-Control: no-store\r\n\r\nhello"
+		},
+		func(q *http.Request) string { // honours ranges with a fixed slice
+			if q.Header.Get("Range") != "" {
+				return "HTTP/1.1 206 Partial Content\r\nContent-Range: bytes 0-1/5\r\nContent-Length: 2\r\nCache-Control: max-age=60\r\n\r\nhe"
+			}
+			return ok200
+		},
+		func(q *http.Request) string { // validates
+			if q.Header.Get("If-None-Match") != "" || q.Header.Get("If-Modified-Since") != "" {
+				return "HTTP/1.1 304 Not Modified\r\nETag: \"e\"\r\n\r\n"
+			}
+			return ok200
+		},
+	}
+	nResp := len(respHeads) + len(dynamic)
+	headOf := func(idx int) string {
+		if idx < len(respHeads) {
+			return respHeads[idx]
+		}
+		return fmt.Sprintf("(request-dependent behaviour %d: 416 for Range then 200 / 206 for Range / 304 for conditionals)", idx-len(respHeads))
+	}
 	o := rig.StartRawOrigin(func(q *http.Request, rec *rig.OriginReq) ([]byte, bool) {
 		idx := 0
 		fmt.Sscanf(q.Header.Get("X-Verif-Resp"), "%d", &idx)
-		if idx < 0 || idx >= len(respHeads) {
+		if idx < 0 || idx >= nResp {
 			idx = 0
 		}
 		rec.SetNote(fmt.Sprint(idx))
+		if idx >= len(respHeads) {
+			return []byte(dynamic[idx-len(respHeads)](q)), true
+		}
 		return []byte(respHeads[idx]), true
 	})
 	defer o.Close()
@@ -334,6 +373,7 @@ func c16RunWire(b core.Batch, r *core.Recorder) {
 		for _, retry := range []bool{false, true} {
 			p := rig.StartProxy(rig.ProxyOpts{Backend: backend, RetryInvalid: retry, Retry416: retry})
 			n := b.Int("n", 300)
+		cases:
 			for i := 0; i < n; i++ {
 				id := fmt.Sprintf("%s-%v-%d", backend, retry, i)
 				// ---- compose request bytes
@@ -356,7 +396,12 @@ func c16RunWire(b core.Batch, r *core.Recorder) {
 					target = "http://" + host + ":/c" // empty port after host:port
 				}
 				var hdrs []string
-				respIdx := rng.IntN(len(respHeads))
+				respIdx := rng.IntN(nResp)
+				if rng.IntN(4) == 0 {
+					respIdx = len(respHeads) + rng.IntN(len(dynamic))
+				}
+				// the same bytes are sent again on a new connection (second time against whatever was stored)
+				reps := 1 + rng.IntN(2)
 				hdrs = append(hdrs, fmt.Sprintf("X-Verif-Resp: %d", respIdx))
 				add := func(name string, seeds []string) {
 					v := seeds[rng.IntN(len(seeds))]
@@ -410,66 +455,71 @@ func c16RunWire(b core.Batch, r *core.Recorder) {
 				if !r.Case(id, map[string]any{"mode": mode, "request": core.Trunc(string(reqBytes), 600), "origin_response": respIdx}) {
 					continue
 				}
-				r.Eval(1)
-				npan := len(p.Panics())
-				wellFormedReq := false
-				if pr, err := http.ReadRequest(bufio.NewReader(bytes.NewReader(reqBytes))); err == nil && pr.Host != "" {
-					wellFormedReq = true
-				}
-				var resp *rig.Resp
-				switch mode {
-				case "plain":
-					resp = rig.PlainDo(p.Addr, rig.Req{Raw: reqBytes, Timeout: 10 * time.Second})
-				case "tunnel":
-					t, err := rig.OpenTunnel(p.Addr, o.Addr, strings.Split(o.Addr, ":")[0], p.CA.Pool)
-					if err != nil {
-						resp = &rig.Resp{Err: err}
-						wellFormedReq = false
-					} else {
-						// origin-form inside the tunnel
-						inner := bytes.Replace(reqBytes, []byte("http://"+host), nil, 1)
-						reqBytes = inner
-						wellFormedReq = false
-						if pr, err := http.ReadRequest(bufio.NewReader(bytes.NewReader(inner))); err == nil && pr.Host != "" && strings.HasPrefix(pr.RequestURI, "/") {
-							wellFormedReq = true
+				for rep := 0; rep < reps; rep++ {
+					r.Eval(1)
+					npan := len(p.Panics())
+					wellFormedReq := false
+					// exactly one Host field line: HTTP/1.1 requires it, and Go's server answers 400 and closes (which
+					// can reset a client still sending a large request) when it is missing or duplicated
+					oneHost := hostHdr != "" && !strings.Contains(hostHdr, "\r\n")
+					if pr, err := http.ReadRequest(bufio.NewReader(bytes.NewReader(reqBytes))); err == nil && pr.Host != "" && oneHost {
+						wellFormedReq = true
+					}
+					var resp *rig.Resp
+					switch mode {
+					case "plain":
+						resp = rig.PlainDo(p.Addr, rig.Req{Raw: reqBytes, Timeout: 10 * time.Second})
+					case "tunnel":
+						t, err := rig.OpenTunnel(p.Addr, o.Addr, strings.Split(o.Addr, ":")[0], p.CA.Pool)
+						if err != nil {
+							resp = &rig.Resp{Err: err}
+							wellFormedReq = false
+						} else {
+							// origin-form inside the tunnel
+							inner := bytes.Replace(reqBytes, []byte("http://"+host), nil, 1)
+							reqBytes = inner
+							wellFormedReq = false
+							if pr, err := http.ReadRequest(bufio.NewReader(bytes.NewReader(inner))); err == nil && pr.Host != "" && oneHost && strings.HasPrefix(pr.RequestURI, "/") {
+								wellFormedReq = true
+							}
+							resp = t.Do(rig.Req{Raw: inner, Timeout: 10 * time.Second})
+							t.Close()
 						}
-						resp = t.Do(rig.Req{Raw: inner, Timeout: 10 * time.Second})
-						t.Close()
+					case "connect-target":
+						tgt := []string{o.Addr, "", "nohost", ":443", "[::1", "a:b:c", strings.Repeat("h", 3000) + ":1", "127.0.0.1:99999", "127.0.0.1:0x50", "h:443 extra"}[rng.IntN(10)]
+						reqBytes = []byte(fmt.Sprintf("CONNECT %s HTTP/1.1\r\nHost: %s\r\n\r\n", tgt, tgt))
+						wellFormedReq = false // only "no panic" is demanded for odd CONNECT targets
+						resp = c16connect(p.Addr, reqBytes)
 					}
-				case "connect-target":
-					tgt := []string{o.Addr, "", "nohost", ":443", "[::1", "a:b:c", strings.Repeat("h", 3000) + ":1", "127.0.0.1:99999", "127.0.0.1:0x50", "h:443 extra"}[rng.IntN(10)]
-					reqBytes = []byte(fmt.Sprintf("CONNECT %s HTTP/1.1\r\nHost: %s\r\n\r\n", tgt, tgt))
-					wellFormedReq = false // only "no panic" is demanded for odd CONNECT targets
-					resp = c16connect(p.Addr, reqBytes)
-				}
-				r.Nontrivial(mode, string(reqBytes), respIdx)
-				r.Count("wire_cases", 1)
-				cs := map[string]any{"id": id, "mode": mode, "request": core.Trunc(string(reqBytes), 800), "origin_response_head": core.Trunc(respHeads[respIdx], 200), "backend": backend}
-				if pans := p.Panics(); len(pans) > npan {
-					kind, frame := core.ClassifyAbort(pans[len(pans)-1])
-					if frame == "" {
-						frame = "net/http"
+					r.Nontrivial(mode, string(reqBytes), respIdx)
+					r.Count("wire_cases", 1)
+					cs := map[string]any{"id": id, "mode": mode, "request": core.Trunc(string(reqBytes), 800), "origin_response_head": core.Trunc(headOf(respIdx), 200), "backend": backend}
+					if pans := p.Panics(); len(pans) > npan {
+						kind, frame := core.ClassifyAbort(pans[len(pans)-1])
+						if frame == "" {
+							frame = "net/http"
+						}
+						r.Violation("C16", fmt.Sprintf("C16:wire:panic:%s:%s", frame, abortKindOf(kind)+c16kind(kind)), fmt.Sprintf("%s request made the handler panic: %s", mode, core.Trunc(kind, 160)), cs, core.Trunc(pans[len(pans)-1], 3000))
+						continue cases
 					}
-					r.Violation("C16", fmt.Sprintf("C16:wire:panic:%s:%s", frame, abortKindOf(kind)+c16kind(kind)), fmt.Sprintf("%s request made the handler panic: %s", mode, core.Trunc(kind, 160)), cs, core.Trunc(pans[len(pans)-1], 3000))
-					continue
-				}
-				brokenTransfer := map[int]bool{3: true, 4: true, 21: true, 23: true, 24: true, 27: true}[respIdx] // (27: announces gzip, body is not gzip) // the origin's own transfer is incomplete or unparseable
-				if wellFormedReq && resp.Err != nil {
-					cls := "dropped"
-					if strings.Contains(resp.Err.Error(), "timeout") {
-						cls = "hang"
+					brokenTransfer := map[int]bool{3: true, 4: true, 21: true, 23: true, 24: true, 27: true}[respIdx] // (27: announces gzip, body is not gzip) // the origin's own transfer is incomplete or unparseable
+					if wellFormedReq && resp.Err != nil {
+						cls := "dropped"
+						if strings.Contains(resp.Err.Error(), "timeout") {
+							cls = "hang"
+						}
+						if brokenTransfer && cls != "hang" {
+							r.NotJudged("origin-transfer-broken-client-connection-ended")
+							continue cases
+						}
+						r.Violation("C16", fmt.Sprintf("C16:wire:unanswered:%s:origin-response-%d", cls, respIdx), fmt.Sprintf("a well-formed %s request got no well-formed response (%v); the origin's answer was %q", mode, resp.Err, core.Trunc(headOf(respIdx), 80)), cs, map[string]any{"request_tail": string(reqBytes[max(0, len(reqBytes)-300):]), "request_len": len(reqBytes), "repetition": rep, "status": resp.Status, "header": resp.Header, "body_read": core.Trunc(string(resp.Body), 200)})
+						continue cases
 					}
-					if brokenTransfer && cls != "hang" {
-						r.NotJudged("origin-transfer-broken-client-connection-ended")
-						continue
-					}
-					r.Violation("C16", fmt.Sprintf("C16:wire:unanswered:%s:origin-response-%d", cls, respIdx), fmt.Sprintf("a well-formed %s request got no well-formed response (%v); the origin's answer was %q", mode, resp.Err, core.Trunc(respHeads[respIdx], 80)), cs, nil)
-					continue
-				}
-				if resp.Err == nil {
-					r.Count("wire_answered", 1)
-					if resp.Status < 100 || resp.Status > 999 {
-						r.Violation("C16", fmt.Sprintf("C16:wire:ill-formed-status:%d", resp.Status), fmt.Sprintf("%s request was answered with status %d", mode, resp.Status), cs, nil)
+					if resp.Err == nil {
+						r.Count("wire_answered", 1)
+						if resp.Status < 100 || resp.Status > 999 {
+							r.Violation("C16", fmt.Sprintf("C16:wire:ill-formed-status:%d", resp.Status), fmt.Sprintf("%s request was answered with status %d", mode, resp.Status), cs, nil)
+						}
 					}
 				}
 			}
